@@ -220,6 +220,9 @@ def check(ck: Checker) -> None:
     from . import round4 as _r4
 
     _r4.create_dirs_all(ck, "C09.order")
+    from . import round7 as _r7
+
+    _r7.build_entries_every_name(ck, "C09.delete")
 
 
 
